@@ -845,7 +845,7 @@ func main() {
 		os.Exit(1)
 	}
 
-	deadline := time.Now().Add(75 * time.Second)
+	deadline := time.Now().Add(240 * time.Second)
 	if args.Tier == "thorough" {
 		deadline = time.Now().Add(9 * time.Minute)
 	}
